@@ -25,9 +25,9 @@ ANCHOR_FILES = ["quantem/tomography/radon/radon.py", "quantem/tomography/tomogra
 RULE = (
     "seeded matrix: filter cases = all six filter names x even sizes 2..1024; radon cases = image size N (5..48, odd and even) x "
     "angle class (axis / uniform / random reals in [0,180] / duplicates / single / endpoints / many) x image kind (smooth Gaussians / "
-    "white noise / sharp-edged phantom) x batch 1..4; iradon cases = N x filter x circle x sinogram kind (skimage radon of smooth / of "
+    "white noise / sharp-edged phantom) x batch 1..4 x amplitude (unit / scaled 1e-12..1e8 / mixed per slice) x memory layout x process-global torch state; iradon cases = N x filter x circle x sinogram kind (skimage radon of smooth / of "
     "noise image, or white-noise sinogram) x theta given/default x output_size default/smaller; sirt cases run "
-    "TomographyConv._sirt_run_epoch on a stub and compare the volume update with a scikit-image recomputation. "
+    "TomographyConv._sirt_run_epoch on a stub and compare the volume update with a scikit-image recomputation; bigbatch cases = a few batches of 10**3..10**4 slices. "
     "non-trivial = (radon/iradon/sirt) image or sinogram not constant and >= 2 angles that are not multiples of 90 degrees, "
     "(filter) a named filter of size >= 4; distinct = (kind, N parity or size class, filter, angle class, batch, circle)"
 )
@@ -37,9 +37,13 @@ ASSUMPTIONS = [
     "square images only (the property's domain); images handed to scikit-image are zero outside the inscribed disc (its documented precondition), the port is additionally fed the unmasked image",
     "iradon output_size is the default or smaller; pixels whose back-projection coordinate lies within 1e-3 of the first/last detector sample for some angle are not judged (np.interp's left/right cut is discontinuous there; none occur in the default geometry)",
     "call histories include what a caller may do with values it owns: returned filters / sinograms / reconstructions are edited in place (zeroed, scaled, offset) and the same call is repeated - it must return the same, still skimage-conforming, result; argument tensors (images, sinograms, theta) are compared with snapshots after every such call",
+    "amplitudes: 35 % of the radon/iradon cases scale the slices by 1e-12..1e8 (one factor, or a different one per slice); every slice is judged relative to its own reference amplitude (not below 1 % of its own input amplitude), so a slice that is lost or mangled next to a bright one is seen",
+    "memory layouts: 40 % of the radon/iradon cases hand over images / sinograms / theta as permuted views, strided slices of a larger buffer, windows with a storage offset or stride-0 expansions; the tensor radon_torch returns is fed to iradon_torch as it is (35 % of radon cases)",
+    "process-global torch state: 30 % of the cases run under a float64 default dtype, no_grad, inference_mode, deterministic algorithms (warn_only), 2 threads, or with requires_grad inputs; the state is restored in a finally block; float64 *inputs* are not generated (radon_torch's float32 sampling grid refuses them)",
+    "large batches: a few cases with B*N*N (radon) / B*A*padded (iradon) just above 2**22..2**25 elements, N 64..310, white-noise data: whole batch vs calls on chunks of 61 slices, and 5-7 slices incl. first/last vs scikit-image; tolerance for N > 48 grows as 400*N*eps32 (measured floor 1.6*N*eps32)",
     "bounds are relative to max|reference| and sized >= 100x the float32 noise floor measured on the repaired tree (see TOL)",
 ]
-BUDGET = {"quick": {"soft_s": 150}, "thorough": {"soft_s": 900}}
+BUDGET = {"quick": {"soft_s": 600}, "thorough": {"soft_s": 1200}}
 MIN_EVALUATIONS = {"quick": 1500, "thorough": 15000}
 REQUIRED_COUNTERS = ["eval:radon_mismatch", "eval:iradon_mismatch", "eval:filter_mismatch", "eval:radon_batch_mismatch", "eval:radon_nonlinear", "eval:zero_deg_projection", "eval:result_not_independent", "eval:argument_modified"]
 
@@ -86,7 +90,7 @@ def plan(tier, seed):
             specs.append({"kind": "filter", "filter": f, "size": s})
     # ---- radon
     ns = list(range(5, 49))
-    reps = 1 if quick else 32
+    reps = 1 if quick else 24
     for n, ac, ik in itertools.product(ns, ANGLE_CLASSES, IMAGE_KINDS):
         for r in range(reps):
             specs.append({"kind": "radon", "n": n, "angles": ac, "image": ik, "batch": int(rng.integers(1, 5)), "theta": "given"})
